@@ -13,7 +13,7 @@ def memcheck_part(V, tier):
     cb = vf.build_harness("codec", flavour="plain")
     fb = vf.build_harness("fields", flavour="plain")
     W = vf.NPROC
-    per = 25 if tier == "quick" else 2500
+    per = 25 if tier == "quick" else 400
     stats = collections.Counter()
     jobs = [("codec", w) for w in range(W)] + [("fields", s) for s in range(1 if tier == "quick" else 6)]
     nsm = c01.ns_map()
